@@ -1,7 +1,7 @@
 """C04 Decoded frames are independent of how the byte stream is chunked."""
 import asyncio
 
-from .. import assert_repo, gen_frames, minicodec
+from .. import assert_repo, gen_frames, minicodec, vloop
 
 ID = 'C04'
 LEVEL = 'exploration'
@@ -184,6 +184,49 @@ async def _tcp_decode(stream, feed_chunks, read_buffer_size, eof='late'):
     return frames, markers
 
 
+async def _message_queue(frames_bytes, waiting):
+    from rsocket.transports.abstract_messaging import AbstractMessagingTransport
+    from rsocket.frame_parser import FrameParser
+    from rsocket.exceptions import RSocketTransportError
+
+    class T(AbstractMessagingTransport):
+        async def send_frame(self, frame):
+            pass
+
+        async def close(self):
+            pass
+
+    t = T()
+    parser = FrameParser()
+    frames = []
+    for b in frames_bytes:
+        async for f in parser.receive_data(b, 0):
+            frames.append(f)
+
+    async def feeder():
+        for f in frames:
+            t._incoming_frame_queue.put_nowait(f)
+            if waiting == 'one-by-one':
+                await asyncio.sleep(0)
+        t._incoming_frame_queue.put_nowait(RSocketTransportError())
+
+    if waiting == 'all-queued-first':
+        await feeder()
+    else:
+        asyncio.ensure_future(feeder())
+    got = []
+    failure = False
+    for _ in range(len(frames) + 2):
+        try:
+            gen = await asyncio.wait_for(t.next_frame_generator(), 5.0)
+        except RSocketTransportError:
+            failure = True
+            break
+        async for f in gen:
+            got.append(f.serialize())
+    return got, failure
+
+
 def plan(tier, seed):
     return [('byte-mode', 800 if tier == 'quick' else 9000),
             ('tcp-reader', 400 if tier == 'quick' else 3000),
@@ -283,7 +326,6 @@ def run_case(gen, idx, rng, tier):
                 if len(chunks) >= 2 and len(bodies) >= 2:
                     nt_keys.append('%08x|%s' % (seq_digest, label))
         elif gen == 'tcp-reader':
-            from .. import vloop
             for rbs in (1, 2, 3, 5, 64, 65536):
                 feeds = []
                 for _ in range(2):
@@ -311,6 +353,22 @@ def run_case(gen, idx, rng, tier):
         else:  # message-mode: one record per message, one parser for the connection
             from rsocket.frame_parser import FrameParser
             from rsocket.frame import InvalidFrame
+            # the message transport's own queue: every frame queued ahead of a transport failure still comes out,
+            # in order, before the failure does, however many were waiting when the reader looked
+            good = [e for e in expected if e not in (None, 'invalid')]
+            if good:
+                for waiting in ('all-queued-first', 'one-by-one'):
+                    try:
+                        got, failure = vloop.run(_message_queue(good, waiting))
+                    except Exception as e:
+                        witnesses.append({'clause': 'transport-generator-raises',
+                                          'detail': dict(ctx, partition='message queue ' + waiting, error=repr(e))})
+                        continue
+                    st['message_queue_runs'] = st.get('message_queue_runs', 0) + 1
+                    if got != good or not failure:
+                        witnesses.append({'clause': 'frames-queued-before-a-transport-failure-lost',
+                                          'detail': dict(ctx, partition='message queue ' + waiting, expected=len(good),
+                                                         got=len(got), failure_raised=failure)})
             p = FrameParser()
             for i, (kind, body) in enumerate(recs):
                 evals += 1
